@@ -108,9 +108,14 @@ func parsePushRules(c *casket.Controller) ([]Rule, error) {
 		args := c.RemainingArgs()
 
 		if len(args) == 0 {
-			rule = new(Rule)
-			rule.Path = "/"
-			rules["/"] = rule
+			// no path is the path "/": like every other path it may have been written before
+			if existingRule, ok := rules["/"]; ok {
+				rule = existingRule
+			} else {
+				rule = new(Rule)
+				rule.Path = "/"
+				rules["/"] = rule
+			}
 			err := parseBlock()
 			if err != nil {
 				return emptyRules, err
